@@ -1,0 +1,44 @@
+//go:build verif
+
+// Contracts for the acv verifier (/verif). Comment-only file: no executable code.
+
+package filesystem
+
+// ---- listing index <-> destroyed file (C06) ---------------------------------------------------------------------
+// describeOldDir numbers the files of a history directory from 2 in ReadDir order; destroying index k must remove
+// exactly the file at position k-2 of the same listing, any other index is rejected without touching anything.
+//@ func (store *KeyStore) destroyRotatedKeyByIndex(path string, index int) (err error)
+//@   props C06 C14
+//@   safety
+//@   ensures bad-index-rejected: called(Storage.ReadDir) && ret(Storage.ReadDir)[1] == nil && (index < 2 || index > len(ret(Storage.ReadDir)[0]) + 1) ==> err == ErrInvalidIndex && !called(Storage.Remove)
+//@   ensures removes-the-listed-file: called(Storage.Remove) ==> called(FileInfo.Name)
+//@   at call FileInfo.Name : assert 2 <= index && index - 2 < len(ret(Storage.ReadDir)[0]) && recv == ret(Storage.ReadDir)[0][index - 2]
+//@   at call filepath.Join : assert arg[0][0] == ret(getHistoryDirName)[0] && arg[0][1] == ret(FileInfo.Name)[0]
+//@   at call Storage.Remove : assert recv == store.fs && arg[0] == ret(filepath.Join)[0]
+//@   at call Storage.ReadDir : assert recv == store.fs && arg[0] == ret(getHistoryDirName)[0]
+//@   at call getHistoryDirName : assert arg[0] == path
+
+//@ func getHistoricalFilePaths(current string, storage Storage) (out []string, err error)
+//@   props C06 C14
+//@   safety
+//@   loop 0 invariant -1 <= i && i < len(history) && 1 <= len(filenames) && filenames[0] == current
+//@          decreases i + 1
+//@   ensures current-first: err == nil ==> 1 <= len(out) && out[0] == current
+
+// ---- rename-last ordering of a v1 key file update (C08) ---------------------------------------------------------
+//@ func (store *KeyStore) WriteKeyFile(filename string, data []byte, mode os.FileMode) (err error)
+//@   props C07 C08
+//@   noinline backupHistoricalKeyFile
+//@   ensures success-means-renamed: err == nil ==> called(Storage.Rename) && ret(Storage.Rename)[0] == nil
+//@   ensures target-untouched-on-early-failure: (ret(Storage.WriteFile)[0] != nil && called(Storage.WriteFile)) || (called(KeyStore.backupHistoricalKeyFile) && ret(KeyStore.backupHistoricalKeyFile)[0] != nil) ==> !called(Storage.Rename) && err != nil
+//@   at call Storage.WriteFile : assert recv == store.fs && arg[0] == ret(Storage.TempFile)[0] && ret(Storage.TempFile)[1] == nil && sameslice(arg[1], data)
+//@   at call KeyStore.backupHistoricalKeyFile : assert arg[0] == filename && ret(Storage.WriteFile)[0] == nil
+//@   at call Storage.Rename : assert recv == store.fs && arg[0] == ret(Storage.TempFile)[0] && arg[1] == filename && ret(Storage.WriteFile)[0] == nil && ret(KeyStore.backupHistoricalKeyFile)[0] == nil
+//@   at call Storage.TempFile : assert arg[0] == filename
+
+//@ func (store *KeyStore) backupHistoricalKeyFile(filename string) (err error)
+//@   props C08
+//@   ensures copy-only-when-link-fails: called(Storage.Copy) ==> ret(Storage.Link)[0] != nil
+//@   at call Storage.Link : assert arg[0] == filename && arg[1] == ret(getNewHistoricalFileName)[0]
+//@   at call Storage.Copy : assert arg[0] == filename && arg[1] == ret(getNewHistoricalFileName)[0]
+//@   at call getNewHistoricalFileName : assert arg[0] == filename
